@@ -38,8 +38,12 @@ type solverSpec struct {
 }
 
 var solvers = []solverSpec{
-	{"z3-5.1.0", func(t int, f string) []string { return []string{"z3-new", fmt.Sprintf("-T:%d", t), "smt.array.extensional=false", f} }},
-	{"z3-4.8.12", func(t int, f string) []string { return []string{"/usr/bin/z3", fmt.Sprintf("-T:%d", t), "smt.array.extensional=false", f} }},
+	{"z3-5.1.0", func(t int, f string) []string {
+		return []string{"z3-new", fmt.Sprintf("-T:%d", t), "smt.array.extensional=false", f}
+	}},
+	{"z3-4.8.12", func(t int, f string) []string {
+		return []string{"/usr/bin/z3", fmt.Sprintf("-T:%d", t), "smt.array.extensional=false", f}
+	}},
 	{"cvc5-1.0", func(t int, f string) []string {
 		return []string{"cvc5", fmt.Sprintf("--tlimit=%d", t*1000), "--produce-models", f}
 	}},
